@@ -15,6 +15,33 @@ package packagedeploy
 //@   loop 1 invariant oldmem_unchanged()
 //@   loop 1 invariant forall i int :: { out[i] } 0 <= i && i < idx ==> len(out[i]) == 1 && fresh(sarr(out[i])) && allocated(sarr(out[i])) && out[i][0] == old(phase.Objects[i])
 
+// Bin-packing chunker: the chunks are consecutive runs of the phase's objects. Ghost state: chunkSl(k) is chunk k as it
+// was closed, chunkOff(k) the index in phase.Objects at which it starts. Chunk 0 starts at 0, every chunk starts where
+// the one before it ends, the last one ends at len(phase.Objects), element j of chunk k is object chunkOff(k)+j, and
+// no two chunks (nor the open chunk) share memory - so the in-order concatenation of the chunks is the original list.
+// (nil, nil means "no chunking": the phase is used as it is.)
+//@ func package-operator.run/internal/packages/internal/packagedeploy.(*BinpackNextFitChunker).Chunk
+//@   at append#1 ghost chunkOff(len(chunks)) := idx - len(currentChunk)
+//@   at append#1 ghost chunkSl(len(chunks)) := currentChunk
+//@   at append#3 ghost chunkOff(len(chunks)) := len(phase.Objects) - len(currentChunk)
+//@   at append#3 ghost chunkSl(len(chunks)) := currentChunk
+//@   loop 1 invariant 0 <= idx && idx <= len(phase.Objects) && oldmem_unchanged()
+//@   loop 1 invariant len(currentChunk) <= idx && fresh(sarr(currentChunk)) && allocated(sarr(currentChunk))
+//@   loop 1 invariant fresh(sarr(chunks)) && allocated(sarr(chunks))
+//@   loop 1 invariant forall k int :: { chunks[k] } 0 <= k && k < len(chunks) ==> chunks[k] == chunkSl(k)
+//@   loop 1 invariant forall k int :: { chunkSl(k) } 0 <= k && k < len(chunks) ==> fresh(sarr(chunkSl(k))) && allocated(sarr(chunkSl(k))) && sarr(chunkSl(k)) != sarr(currentChunk) && 0 <= chunkOff(k) && chunkOff(k) + len(chunkSl(k)) <= idx - len(currentChunk)
+//@   loop 1 invariant forall k int :: { chunkSl(k) } 0 <= k && k < len(chunks) - 1 ==> chunkOff(k + 1) == chunkOff(k) + len(chunkSl(k))
+//@   loop 1 invariant len(chunks) > 0 ==> chunkOff(0) == 0 && chunkOff(len(chunks) - 1) + len(chunkSl(len(chunks) - 1)) == idx - len(currentChunk)
+//@   loop 1 invariant len(chunks) == 0 ==> len(currentChunk) == idx
+//@   loop 1 invariant forall k int, j int :: { slice_of("package-operator.run/apis/core/v1alpha1.ObjectSetObject", chunkSl(k))[j] } 0 <= k && k < len(chunks) && 0 <= j && j < len(chunkSl(k)) ==> slice_of("package-operator.run/apis/core/v1alpha1.ObjectSetObject", chunkSl(k))[j] == phase.Objects[chunkOff(k) + j]
+//@   loop 1 invariant forall j int :: { currentChunk[j] } 0 <= j && j < len(currentChunk) ==> currentChunk[j] == phase.Objects[idx - len(currentChunk) + j]
+// (nothing that existed before the call is written: phase.Objects below is the list as handed in)
+//@   ensures [C14] gomem_unchanged()
+//@   ensures [C14] result1 == nil && len(result0) > 0 ==> chunkOff(0) == 0 && chunkOff(len(result0) - 1) + len(result0[len(result0) - 1]) == old(len(phase.Objects))
+//@   ensures [C14] result1 == nil && len(result0) > 0 ==> (forall k int :: { result0[k] } 0 <= k && k < len(result0) ==> result0[k] == chunkSl(k))
+//@   ensures [C14] result1 == nil && len(result0) > 0 ==> (forall k int :: { chunkSl(k) } 0 <= k && k < len(result0) - 1 ==> chunkOff(k + 1) == chunkOff(k) + len(chunkSl(k)))
+//@   ensures [C14] result1 == nil && len(result0) > 0 ==> (forall k int, j int :: { slice_of("package-operator.run/apis/core/v1alpha1.ObjectSetObject", chunkSl(k))[j] } 0 <= k && k < len(result0) && 0 <= j && j < len(chunkSl(k)) ==> slice_of("package-operator.run/apis/core/v1alpha1.ObjectSetObject", chunkSl(k))[j] == phase.Objects[chunkOff(k) + j])
+
 //@ func package-operator.run/internal/packages/internal/packagedeploy.(*DeploymentReconciler).reconcileSliceWithCollisionCount
 //@   ghost lastSliceOK() := if result == nil then objid(clientObj(slice)) else old(lastSliceOK())
 //@   ensures [C14] result == nil ==> lastSliceOK() == objid(clientObj(slice))
